@@ -252,6 +252,45 @@ def json_loads(i, pos, kw, node):
         raise RaiseEx("json.JSONDecodeError", str(e), node)
 
 
+def install_json(interp):
+    """json / simplejson: dumps, loads, JSONEncoder().encode, JSONDecoder().decode on concrete values."""
+    def s_dumps(i, pos, kw, node):
+        try:
+            return json.dumps(pos[0], **{k: v for k, v in kw.items() if k in ("separators", "sort_keys", "ensure_ascii")})
+        except TypeError:
+            raise Unsupported("json.dumps of a value with symbolic parts: %r" % (pos[0],))
+
+    def s_loads(i, pos, kw, node):
+        v = pos[0]
+        if isinstance(v, AStr):
+            v = v.simplify()
+        if not isinstance(v, str):
+            raise Unsupported("json.loads of %r" % (v,))
+        try:
+            return json.loads(v)
+        except ValueError as e:
+            raise RaiseEx("json.JSONDecodeError", str(e), node)
+
+    class JsonCodec:
+        def __init__(self, kw):
+            self.kw = kw
+
+        def __deepcopy__(self, memo):
+            return self
+
+        def ai_call(self, i, attr, pos, kw, node):
+            if attr == "encode":
+                return s_dumps(i, pos, self.kw, node)
+            if attr == "decode":
+                return s_loads(i, pos, {}, node)
+            raise Unsupported("JSON codec method %s" % attr)
+    for mod in ("json", "simplejson"):
+        interp.ext_summaries[mod + ".dumps"] = s_dumps
+        interp.ext_summaries[mod + ".loads"] = s_loads
+        interp.ext_summaries[mod + ".JSONEncoder"] = lambda i, pos, kw, node: JsonCodec(dict(kw))
+        interp.ext_summaries[mod + ".JSONDecoder"] = lambda i, pos, kw, node: JsonCodec({})
+
+
 def install(interp, db=None, files=None):
     """Put `interp` into scenario mode; returns the connection over `db`."""
     interp.vfs = dict(files or {})
@@ -306,22 +345,7 @@ def install(interp, db=None, files=None):
         i.trace.events.append(("unlink", path, node))
         return None
 
-    def s_dumps(i, pos, kw, node):
-        try:
-            return json.dumps(pos[0], **{k: v for k, v in kw.items() if k in ("separators", "sort_keys", "ensure_ascii")})
-        except TypeError:
-            raise Unsupported("json.dumps of a value with symbolic parts: %r" % (pos[0],))
-
-    def s_loads(i, pos, kw, node):
-        v = pos[0]
-        if isinstance(v, AStr):
-            v = v.simplify()
-        if not isinstance(v, str):
-            raise Unsupported("json.loads of %r" % (v,))
-        try:
-            return json.loads(v)
-        except ValueError as e:
-            raise RaiseEx("json.JSONDecodeError", str(e), node)
+    install_json(interp)
     interp.ext_summaries["sqlite3.connect"] = s_connect
     interp.ext_summaries["tempfile.NamedTemporaryFile"] = s_tmp
     interp.ext_summaries["tempfile.mkstemp"] = s_mkstemp
@@ -330,7 +354,4 @@ def install(interp, db=None, files=None):
     interp.ext_summaries["os.unlink"] = s_unlink
     interp.ext_summaries["os.remove"] = s_unlink
     interp.ext_summaries["os.path.exists"] = lambda i, pos, kw, node: _pathname(pos[0]) in i.vfs
-    for mod in ("json", "simplejson"):
-        interp.ext_summaries[mod + ".dumps"] = s_dumps
-        interp.ext_summaries[mod + ".loads"] = s_loads
     return conn
